@@ -100,6 +100,7 @@ def run(case):
         gd, written = W.write_world(world, root, knobs)
 
         C.prelude(world, knobs, root, out['faults'])
+        C.failed_loads_before(gd, knobs, out['faults'])
         def load(fields, sub, label):
             nonlocal nloads
             nloads += 1
